@@ -411,6 +411,57 @@ def _(p):
     return None if len(out) == p["df"] else f"wrong-column-count: bs(df={p['df']}) gave {len(out)} columns"
 
 
+@replay("c13_poly_float")
+def _(p):
+    from formulaic.transforms import poly
+
+    x = numpy.array(p["x"], dtype=float)
+    deg = p["degree"]
+    st = {}
+    P = numpy.asarray(poly(x, degree=deg, _state=st), dtype=float)
+    if not numpy.all(numpy.isfinite(P)):
+        return f"not-finite: poly(x, {deg}) on {p['x'][:3]}..."
+    G = P.T @ P
+    if not numpy.allclose(G, numpy.eye(deg), atol=1e-6):
+        return f"not-orthonormal: poly(x, {deg}) on {p['x'][:3]}...: Gram matrix deviates by {float(numpy.abs(G - numpy.eye(deg)).max()):.3g}"
+    if not numpy.allclose(P.sum(axis=0), 0, atol=1e-6):
+        return f"not-orthogonal-to-constant: column sums {P.sum(axis=0).tolist()}"
+    # spans the raw powers: the residual of regressing x**k on [1 | P] vanishes (relative)
+    xs = (x - x.mean()) / (numpy.abs(x - x.mean()).max() or 1.0)
+    M = numpy.column_stack([numpy.ones(len(x)), P])
+    for k in range(1, deg + 1):
+        r = xs ** k - M @ numpy.linalg.lstsq(M, xs ** k, rcond=None)[0]
+        if numpy.abs(r).max() > 1e-6:
+            return f"span: (x - mean)^{k} is not in the span of [1 | poly(x, {deg})] (residual {float(numpy.abs(r).max()):.3g})"
+    again = numpy.asarray(poly(x[:2], degree=deg, _state=st), dtype=float)
+    if not numpy.allclose(again, P[:2], rtol=1e-6, atol=1e-8):
+        return f"wrong-replay: recorded state gives {again.tolist()} for the first two rows, fitted {P[:2].tolist()}"
+    return None
+
+
+@replay("c12_float")
+def _(p):
+    from formulaic.transforms import TRANSFORMS
+
+    x = numpy.array(p["x"], dtype=float)
+    t = p["transform"]
+    kw = dict(df=5, include_intercept=True) if t == "bs" else dict(df=4)
+    out = TRANSFORMS[t](x, _state={}, **kw)
+    M = numpy.stack([numpy.asarray(out[k], dtype=float) for k in out], axis=1)
+    if not numpy.all(numpy.isfinite(M)):
+        return f"not-finite: {t} on {p['x'][:3]}..."
+    if not numpy.allclose(M.sum(axis=1), 1.0, atol=1e-6):
+        return f"rows-do-not-sum-to-one: {t}({kw}) on {p['x'][:3]}...: row sums {M.sum(axis=1).tolist()[:4]}"
+    if t == "bs" and M.min() < -1e-9:
+        return f"negative-basis: {float(M.min())}"
+    # affine invariance: the basis of a*x + b on transformed knots is the same matrix
+    out2 = TRANSFORMS[t]((x - x.min()) / (x.max() - x.min()), _state={}, **kw)
+    M2 = numpy.stack([numpy.asarray(out2[k], dtype=float) for k in out2], axis=1)
+    if M2.shape != M.shape or not numpy.allclose(M, M2, atol=1e-6):
+        return f"not-affine-invariant: {t} on {p['x'][:3]}... differs from the basis of the data rescaled to [0, 1] by {float(numpy.abs(M - M2).max()):.3g}"
+    return None
+
+
 @replay("c13_quoted_pair")
 def _(p):
     import pandas
